@@ -28,14 +28,14 @@ COND_CLASSES = [["cur"], ["stale"], ["other"], ["star"], ["unq"], ["garbage"],
 # If-Match only (strong comparison): the current etag in weak form lists nothing the resource has
 IM_CLASSES = COND_CLASSES + [["weak"], ["stale", "weak"], ["weak", "other"]]
 
-PROP_VALUES = ["Plain", "Work calendar", "50% done", "a=b:c", "[x] # y", "Zoë ☃",
+PROP_VALUES = ["Plain", "Work calendar", "50% done", "a=b:c", "[x] # y", "Zoë ☃", "Grüße aus dem Café", "ÿÆ",
                "quote\"s'", "x"]
 COLORS = ["#FF0000", "#00ff00aa", "#123456", "#ABCDEF12"]
 NASTY_VALUES = ["%", "%%", "100%", "%(displayname)s", "%s", "[section]", "[", "#hash", "a = b",
                 "key: value", "\"quoted\"", "it's", "back\\slash", "ü", "日本語 カレンダー", "a#b", "x=y=z",
                 "tab\tinside", "two  spaces", "=", ":", "!bang", "${var}", "~", "a,b", "<tag>&amp;",
                 # several lines / paragraphs (descriptions are free text)
-                "two\nlines", "para one\n\npara two", "first\n second indented", "a\n[section]\nb = c",
+                "Grüße", "naïve façade ¿qué?", "two\nlines", "para one\n\npara two", "first\n second indented", "a\n[section]\nb = c",
                 "x\n# not a comment\n; neither", "l1\nl2\nl3\n\n\nl6"]
 VALUE_ALPHABET = list("abcXYZ019 %[]#=:\"'\\()$!?&<>/.,-_üé☃") + ["%%", "%(", ")s"]
 
@@ -312,7 +312,8 @@ def run_random_session(seed, prof, frontend="wsgi", prefix="/", backend="tree", 
                 # order, sometimes with the same property twice
                 k = 1 if rng.random() < prof.get("propsingle", 0.6) else rng.randint(2, 4)
                 ps = [rng.choice(cand) for _ in range(k)] if rng.random() < 0.3 else rng.sample(cand, min(k, len(cand)))
-                s.propupdate(c, [(p, value_for(p)) for p in ps], cdata=rng.random() < 0.15)
+                s.propupdate(c, [(p, value_for(p)) for p in ps], cdata=rng.random() < 0.15,
+                             enc=rng.choice([None, None, None, "latin1-both", "latin1-prolog", "utf8-param", "appxml", "utf16"]))
             elif op == "restart":
                 s.restart(defaults=rng.random() < 0.5)
             elif op == "lock":
